@@ -66,6 +66,14 @@ func DateFromString(data string) (*Date, error) {
 		return nil, fmt.Errorf("Invalid date string: %s", data)
 	}
 
+	// reject dates the calendar does not have (month 13, 30 February, ...)
+	if year >= 0 && year <= 9999 {
+		t := time.Date(year, time.Month(month), day, 0, 0, 0, 0, time.UTC)
+		if t.Year() != year || int(t.Month()) != month || t.Day() != day {
+			return nil, fmt.Errorf("Invalid date string: %s", data)
+		}
+	}
+
 	dd := &Date{
 		Year:  int32(year),
 		Month: int32(month),
